@@ -551,6 +551,9 @@ func GenTrip(rng *rand.Rand, thorough bool, emit func(*Sx)) {
 					if n%11 == 0 {
 						e = BPlain(m + "x")
 					}
+					if n%13 == 0 {
+						e = BPlain("timeout: " + m)
+					}
 					cfg := fullCfg(false)
 					sc := Script{}
 					calls := []TripCall{}
